@@ -133,7 +133,8 @@ func runC18(c *core.Ctx) {
 		"{% for kv in m %}{{ kv[0] }}={{ kv[1] }};{% endfor %}", "{{ m.a }}{{ m.b }}{{ m['a'] }}{{ m.size }}", "{{ d | plus: d }}", "{{ 3 | minus: d }}", "{{ s | append: s }}",
 		"{{ s | upcase }}", "{{ 'abc' | replace: s, s }}", "{% if d %}T{% endif %}{% unless nd %}U{% endunless %}", "{{ arr[d] }}{{ arr[0] }}{{ nested[1][0] }}", "{{ arr.size }}{{ arr.first }}",
 		"{% assign v = d %}{{ v }}{% capture c %}{{ d }}{% endcapture %}{{ c }}", "{{ arr | compact | size }}", "{{ nested | first | first }}", "{% tablerow x in arr cols: 2 %}{{ x }}{% endtablerow %}",
-		"{{ sarr | sort_natural | join: ' ' }}", "{{ sarr | join: '-' | split: '-' | last }}", "{% if s contains 'a' %}T{% endif %}{% if sarr contains s %}S{% endif %}", "{{ arr | sort | first }}{{ arr | sort | last }}",
+		"{{ sarr | sort_natural | join: ' ' }}", "{{ sarr | join: '-' | split: '-' | last }}", "{% if s contains 'a' %}T{% endif %}{% if sarr contains s %}S{% endif %}", "{{ arr | sort | first }}{{ arr | sort | last }}", "{{ arr | sort | join: ',' }}/{{ arr | join: ',' }}/{{ sarr | sort_natural | join: ',' }}/{{ sarr | join: ',' }}",
+		"{{ arr | reverse | join: ',' }}/{{ arr | join: ',' }}/{{ arr | uniq | compact | size }}/{{ arr | size }}",
 		"{% for x in arr limit: d offset: 1 %}{{ x }}{% endfor %}", "{{ d | divided_by: 2 }}{{ 7 | divided_by: d }}{{ 7 | modulo: d }}", "{{ s | size }}{{ arr | size }}", "{{ s | slice: 0, d }}{{ s | truncate: 5 }}",
 		"{{ d | default: 'x' }}{{ nd | default: 'dflt' }}", "{% if d < 3 and d > 1 %}T{% endif %}{% if d <= 2 or nd %}U{% endif %}",
 		"{{ m }}", "{{ objs[0] }}|{{ objs | last }}", "{{ mm }}", "{% for kv in mm %}{{ kv[1] }}{% endfor %}",
@@ -205,7 +206,7 @@ func runC18(c *core.Ctx) {
 		if !c.Begin("pointers:" + src) {
 			continue
 		}
-		c18Compare(c, e, "pointers", src, env, gen.Rep{Pointers: true}, nAlt, i)
+		c18Compare(c, e, "pointers", src, env, gen.Rep{Pointers: true, Drops: i%3 == 1}, nAlt, i)
 	}
 	// ---- (4) ordered maps: lookup and size -----------------------------------------------------------
 	msT := []string{"{{ m.a }}", "{{ m['a'] }}", "{{ m.size }}", "{{ m.zz }}|{{ m['zz'] }}", "{{ m.inner.j }}", "{{ m[key] }}", "{{ m.inner.size }}", "{{ m.inner['j'] }}{{ m.b }}",
@@ -223,7 +224,7 @@ func runC18(c *core.Ctx) {
 		if !c.Begin("mapslice:" + src + " env=" + env.String()) {
 			continue
 		}
-		c18Compare(c, e, "mapslice", src, env, gen.Rep{MapSlice: true}, nAlt, i)
+		c18Compare(c, e, "mapslice", src, env, gen.Rep{MapSlice: true, Pointers: i%2 == 1, Drops: i%4 == 3}, nAlt, i)
 	}
 	// ---- (5) []byte: printing and string-filter receiver ------------------------------------------------
 	byT := []string{"{{ b }}", "[{{ b }}]", "{{ b | upcase }}", "{{ b | append: 'x' }}", "{{ b | replace: 'a', 'o' }}", "{{ b | slice: 1, 2 }}", "{{ b | truncate: 4 }}", "{{ b | split: ' ' | first }}",
